@@ -7,7 +7,7 @@ from vf.spec import Ok, Prim, Program, Union_, Unspecified, canon, match_img
 PROP = "C14"
 SHARDS = {"quick": 8, "thorough": 16}
 TIME_CAP = {"quick": 70, "thorough": 900}
-REQUIRED = ["monotonic_checks", "strict_reject_coerced_accept", "model_agree_accept", "model_agree_reject", "custom_coercer_wrong", "custom_coercer_right", "global_setting_checks", "programs", "discriminated_families", "discriminated_monotonic_checks"]
+REQUIRED = ["custom_coercer_polite_wrong", "monotonic_checks", "strict_reject_coerced_accept", "model_agree_accept", "model_agree_reject", "custom_coercer_wrong", "custom_coercer_right", "global_setting_checks", "programs", "discriminated_families", "discriminated_monotonic_checks"]
 RULE = ("C01 program space x (type-relevant atoms + numeric strings (' 12 ', '1_000', '1e3', 'nan', '1.5', '-3') + every boolean word in lower/upper/mixed "
         "case + near-misses ('maybe', '2') + '' and whitespace), also substituted at every position of model-valid data; each datum is run strict and "
         "with coerce=True. A case = (type signature, datum); non-trivial when the two runs differ or the type is not a bare primitive; distinct by hash.")
@@ -28,6 +28,16 @@ FEATS = {"flatten", "pattern", "additional", "class_aliaser", "frozen", "dep_req
 
 def wrong_coercer(cls, data):
     return {int: "s", float: "s", str: 1, bool: "s", type(None): 0, list: {}, dict: []}[cls]
+
+
+def polite_wrong_coercer(cls, data):
+    """identity on data already of the expected class (as the documented coercers are), a wrong-typed -- and falsy where
+    possible -- result otherwise: since results are type-checked, coercing with it must change nothing"""
+    if cls is float and type(data) is int:
+        return data
+    if isinstance(data, cls) and not (cls in (int, float) and isinstance(data, bool)):
+        return data
+    return {int: "", float: "", str: 0, bool: "", type(None): 0, list: {}, dict: []}.get(cls, 0)
 
 
 def right_coercer(cls, data):
@@ -125,6 +135,16 @@ def check_program(env, prog, label, ndata):
                     env.violation({"kind": "wrong-typed-coercer-result-accepted"}, {**base, "datum": d, "observed": r.brief()})
                 if name == "right" and (r.kind != "ok" or canon(r.value) != canon(right_coercer({"int": int, "float": float, "str": str, "bool": bool}[t.p], None))):
                     env.violation({"kind": "right-typed-coercer-result-rejected"}, {**base, "datum": d, "observed": r.brief()})
+    # (3b) a coercer whose results are wrong-typed whenever it has something to do: same verdicts and values as strict mode
+    o = harness.call(deserialization_method, prog.T, coerce=polite_wrong_coercer, additional_properties=cxs.additional_properties, **({"aliaser": harness.options(cxs)["aliaser"]} if "aliaser" in harness.options(cxs) else {}))
+    if o.kind == "ok":
+        for d in data[:: max(1, len(data) // 24)]:
+            rs, r = harness.call(strict, d), harness.call(o.value, d)
+            env.count("custom_coercer_polite_wrong")
+            if r.kind == "exc":
+                env.violation({"kind": "custom-coercer-exception", "exc": r.exc, "coercer": "polite-wrong"}, {**base, "datum": d, "observed": r.brief()})
+            elif rs.kind in ("ok", "verr") and r.kind != rs.kind:
+                env.violation({"kind": "wrong-typed-coercer-result-changes-verdict", "strict": rs.kind, "coerced": r.kind}, {**base, "datum": d, "strict": rs.brief(), "with_coercer": r.brief()})
     # (4) global setting == coerce=True
     if rng.random() < 0.2:
         settings.deserialization.coerce = True
